@@ -102,16 +102,26 @@ theorem call_not_oob (hg : prim.Guarded) (o : Out) (frag : Str) (v : PVal) : (o.
     | file c => simp [Sink.reject]
   · simp
 
-theorem action_not_oob (hg : prim.Guarded) (hs : ∀ a o, (shw a o).2 ≠ .oob) (k : Kind) (buf : Str) (a : Obj) (o : Out) :
+/-- an argument `print_to_with` can hand to any conversion without undefined behaviour: it is not the destination itself
+    and its `show` does not report any -/
+def ArgSafe (a : Obj) : Prop := a.isSink = false ∧ ∀ o, (shw a o).2 ≠ .oob
+
+theorem action_not_oob (hg : prim.Guarded) (k : Kind) (buf : Str) (a : Obj) (ha : ArgSafe shw a) (o : Out) :
     (action prim shw k buf a o).2 ≠ .oob := by
   cases k with
-  | «show» => exact hs a o
-  | cstr => simp only [action]; split <;> first | exact call_not_oob prim hg _ _ _ | simp
+  | «show» => exact ha.2 o
+  | cstr =>
+    have hns : action prim shw .cstr buf a o =
+        match cStr a with
+        | .ok s => o.call prim buf (.cstr s)
+        | .error e => (o, .raised e) := by
+      cases a <;> first | rfl | exact absurd ha.1 (by decide)
+    rw [hns]; split <;> first | exact call_not_oob prim hg _ _ _ | simp
   | cint => simp only [action]; split <;> first | exact call_not_oob prim hg _ _ _ | simp
   | cfloat => simp only [action]; split <;> first | exact call_not_oob prim hg _ _ _ | simp
   | obj => exact call_not_oob prim hg _ _ _
 
-theorem dispatch_not_oob (hg : prim.Guarded) (hs : ∀ a o, (shw a o).2 ≠ .oob) (c : Char) (buf : Str) (a : Obj) :
+theorem dispatch_not_oob (hg : prim.Guarded) (c : Char) (buf : Str) (a : Obj) (ha : ArgSafe shw a) :
     ∀ (d : List (Matcher × Kind)) (o : Out), (dispatch prim shw d c buf a o).2 ≠ .oob := by
   intro d
   induction d with
@@ -121,7 +131,7 @@ theorem dispatch_not_oob (hg : prim.Guarded) (hs : ∀ a o, (shw a o).2 ≠ .oob
     obtain ⟨m, k⟩ := mk
     simp only [dispatch]
     split
-    · have := action_not_oob prim shw hg hs k buf a o
+    · have := action_not_oob prim shw hg k buf a ha o
       rcases hact : action prim shw k buf a o with ⟨o', oc⟩
       rw [hact] at this
       cases oc with
@@ -130,7 +140,7 @@ theorem dispatch_not_oob (hg : prim.Guarded) (hs : ∀ a o, (shw a o).2 ≠ .oob
       | oob => simp at this
     · exact ih o
 
-theorem refRun_not_oob (hg : prim.Guarded) (hs : ∀ a o, (shw a o).2 ≠ .oob) (args : List Obj) :
+theorem refRun_not_oob (hg : prim.Guarded) (args : List Obj) (hs : ∀ a ∈ args, ArgSafe shw a) :
     ∀ (segs : List Seg) (k : Nat) (o : Out), (refRun cfg prim shw args segs k o).2 ≠ .oob := by
   intro segs
   induction segs with
@@ -158,10 +168,10 @@ theorem refRun_not_oob (hg : prim.Guarded) (hs : ∀ a o, (shw a o).2 ≠ .oob) 
       | oob => simp at this
     | spec b c =>
       simp only [refRun]
-      cases args[k]? with
+      cases hk : args[k]? with
       | none => simp
       | some a =>
-        have := dispatch_not_oob prim shw hg hs c ('%' :: (b ++ [c])) a cfg.disp o
+        have := dispatch_not_oob prim shw hg c ('%' :: (b ++ [c])) a (hs a (List.mem_of_getElem? hk)) cfg.disp o
         rcases hd : dispatch prim shw cfg.disp c ('%' :: (b ++ [c])) a o with ⟨o', oc⟩
         rw [hd] at this
         simp only [hd]
